@@ -36,11 +36,21 @@ func goroutineStates() (allBlocked bool, inLockWrite bool) {
 		case "chan receive", "chan send", "select", "select (no cases)", "semacquire", "sync.Mutex.Lock",
 			"sync.RWMutex.Lock", "sync.RWMutex.RLock", "sync.Cond.Wait", "sync.WaitGroup.Wait", "IO wait",
 			"sleep", "chan receive (nil chan)", "chan send (nil chan)", "finalizer wait", "GC worker (idle)":
+			if state == "semacquire" && !bytes.Contains(blk, []byte("sync.")) {
+				// runtime-internal wait (stop-the-world, GC start): the goroutine is on its way
+				allBlocked = false
+			}
 			if bytes.Contains(blk, []byte(".lockWrite(")) {
 				inLockWrite = true
 			}
 		default:
-			allBlocked = false
+			// lockWrite polls (busily, while the Online signal is stale) until the read
+			// routine has dealt with the connection: a request in there is waiting
+			if bytes.Contains(blk, []byte(".lockWrite(")) {
+				inLockWrite = true
+			} else {
+				allBlocked = false
+			}
 		}
 	}
 	return
@@ -57,7 +67,13 @@ func quiesce() (inLockWrite bool) {
 		runtime.Gosched()
 		ok, lw := goroutineStates()
 		if ok {
-			return lw
+			// sample again after a pause: a goroutine may have been caught in a transient wait
+			time.Sleep(100 * time.Microsecond)
+			runtime.Gosched()
+			ok2, lw2 := goroutineStates()
+			if ok2 {
+				return lw || lw2
+			}
 		}
 		if time.Now().After(deadline) {
 			spinning = true
